@@ -48,6 +48,9 @@ void clear_faults();
 // short-write pattern: pwrite k returns at most max_chunk bytes (0 = unlimited); every
 // zero_every-th pwrite returns 0 bytes (0 = never), at most zero_run times in a row
 void set_short(size_t max_chunk, int zero_every, int zero_run);
+// sparse mode: a pwrite of more than 1 MiB really writes only its first and last 4 KiB (the file
+// stays sparse) but reports the full count: lets a case produce multi-GiB files in milliseconds
+void set_sparse(bool on);
 const Stats& stats();
 // misuse recorded by the ledger (first one): NULL if none
 const char* violation();
